@@ -67,6 +67,19 @@ pub fn stream(rng: &mut Rng, len: usize, class: &str) -> Vec<f64> {
 				v.push(*rng.pick(&alpha));
 			}
 		}
+		// the same in short runs (not in the class list: forced on the selection methods, where a comparison that does not
+		// separate -0.0 from +0.0 corrupts the sorted bookkeeping only on particular run patterns)
+		"zeros_runs" => {
+			let alpha = [0.0, -0.0, 1.0, -1.0];
+			while v.len() < len {
+				let x = *rng.pick(&alpha);
+				for _ in 0..(1 + rng.below(4)) {
+					if v.len() < len {
+						v.push(x);
+					}
+				}
+			}
+		}
 		"walk" => {
 			let mut x = 100.0 * (1.0 + rng.unit());
 			let step = *rng.pick(&[0.01, 0.5, 3.0]);
@@ -233,8 +246,10 @@ pub fn candles(rng: &mut Rng, len: usize, class: &str) -> Vec<Candle> {
 		let close = closes[i + 1];
 		let (hi0, lo0) = (open.max(close), open.min(close));
 		let flat = open == close && rng.chance(3, 4);
-		let up = if ticks { 0.5 * rng.below(3) as f64 } else if flat || rng.chance(1, 6) { 0.0 } else { hi0 * 0.01 * rng.unit() };
-		let dn = if ticks { 0.5 * rng.below(3) as f64 } else if flat || rng.chance(1, 6) { 0.0 } else { lo0 * 0.01 * rng.unit() };
+		// `ramp`: no wicks, so that highs and lows are as monotone as the closes (a streak is not broken by a random wick)
+		let ramp = class == "ramp";
+		let up = if ticks { 0.5 * rng.below(3) as f64 } else if flat || ramp || rng.chance(1, 6) { 0.0 } else { hi0 * 0.01 * rng.unit() };
+		let dn = if ticks { 0.5 * rng.below(3) as f64 } else if flat || ramp || rng.chance(1, 6) { 0.0 } else { lo0 * 0.01 * rng.unit() };
 		let high = hi0 + up;
 		let low = (lo0 - dn).max(lo0 * 0.5);
 		let volume = match vol_mode {
